@@ -1716,6 +1716,15 @@ func Program(rt *rapid.T, p Profile) (*oracle.Program, *Meta) {
 			shadowCall = "fmt.Println(\"shadow\", min([]int{1, 2, 3}), print(bs), useShadow(bi))"
 		}
 	}
+	// a package-level function variable called from one site before and after it is rebound, and a function-typed
+	// parameter that carries the name of a package-level function (the parameter wins inside that function only)
+	hookCall := ""
+	if rx.Chance(rt, "hookvar", 1, 3) {
+		g.meta.feat("hookvar")
+		top.WriteString("var hook = hookA\n\nfunc hookA(a int) int {\n\treturn a + 1\n}\n\nfunc hookB(a int) int {\n\treturn a * 10\n}\n\nfunc viaHook(a int) int {\n\treturn hook(a) + 1000\n}\n\n")
+		top.WriteString("func twice(a int) int {\n\treturn a * 2\n}\n\nfunc viaTwice(a int) int {\n\treturn twice(a) + 1\n}\n\nfunc applyTwice(twice func(int) int, a int) int {\n\treturn twice(a) + viaTwice(a)\n}\n\n")
+		hookCall = "fmt.Println(\"hook\", viaHook(2), hook(3))\n\thook = hookB\n\tfmt.Println(\"hook\", viaHook(2), hook(3))\n\tfor hi := 0; hi < 3; hi++ {\n\t\tif hi == 1 {\n\t\t\thook = hookA\n\t\t}\n\t\tfmt.Println(\"hook\", hi, hook(hi), viaHook(hi))\n\t}\n\tfmt.Println(\"shadowfn\", applyTwice(hookB, 3), applyTwice(twice, 4), viaTwice(5))"
+	}
 	// init and Main
 	var mainBody strings.Builder
 	g.sb = &mainBody
@@ -1760,6 +1769,9 @@ func Program(rt *rapid.T, p Profile) (*oracle.Program, *Meta) {
 	}
 	if shadowCall != "" {
 		g.line("%s", shadowCall)
+	}
+	if hookCall != "" {
+		g.line("%s", hookCall)
 	}
 	g.stmts(1 << 20)
 	if localFn != "" {
